@@ -50,14 +50,13 @@ def parseOuts (obs : String) : List (NAddr × NAddr × Bytes) :=
     let inner := (rest.splitOn "]").headD ""
     if inner = "" then [] else
     (inner.splitOn ";").filterMap (fun e =>
-      match e.splitOn ":" with
-      | [ab, h] =>
-        match ab.splitOn ">" with
-        | [a, b] => do
-          let a ← parseNAddr a; let b ← parseNAddr b; let h ← Bytes.ofHex h
-          pure (a, b, h)
-        | _ => none
-      | _ => none)
+      -- `src>dst:hex`; an address may itself contain colons (`6:<hex ip>:<port>`): the datagram is what follows the last one
+      let parts := e.splitOn ":"
+      match parts.getLast?, (":".intercalate parts.dropLast).splitOn ">" with
+      | some h, [a, b] => do
+        let a ← parseNAddr a; let b ← parseNAddr b; let h ← Bytes.ofHex h
+        pure (a, b, h)
+      | _, _ => none)
   | _ => []
 
 structure SessView where
@@ -210,9 +209,14 @@ def nodeStepNew (st : NSt) (port : String) (fs : List String) (implObs : String)
       let keepalive := match ka.toNat? with
         | some k => k
         | none => (Generated.defaultKeepalive pt).getD 0
+      -- adv=<pN | 4:<hex ip>:<port> | ip4:<hex ip>>,… : config.advertise_addresses after `parse_listen` (an address without port gets the port of the socket)
+      let advertise : List NAddr := match kvField fs "adv" with
+        | some a => if a = "-" then [] else (a.splitOn ",").filterMap (fun x =>
+            if x.startsWith "ip4:" then (Bytes.ofHex (x.drop 4).toString).map (fun ip => SockAddr.v4 ip port) else parseNAddr x)
+        | none => []
       let cfg : NodeCfg := { tap, learning, broadcast, peerTimeout := pt, peerTimeoutPublish := pt % 65536, updateFreq := keepalive % 65536,
-                             claims, key := st.keys.getD ki [], trusted, algos }
-      let n : Node := { nodeId, addr := portAddr port, cfg, own := [portAddr port],
+                             claims, key := st.keys.getD ki [], trusted, algos, advertise }
+      let n : Node := { nodeId, addr := portAddr port, cfg, own := advertise ++ [portAddr port],
                         table := { cacheTimeout := swt, claimTimeout := pt }, nextPeers := st.now, nextOwnReset := st.now + 300 }
       let st' := if kvField fs "nat" = some "1" && !st.natNodes.contains port then { st with natNodes := st.natNodes ++ [port] } else st
       let st' := { st' with args := (st'.args.filter (·.1 ≠ port)) ++ [(port, fs)], natSeen := st'.natSeen.filter (fun (p, _, _) => p ≠ port) }
